@@ -818,16 +818,21 @@ def evaluate(ck, pool, projs, tier):
         results.append({"proj": p, "files": f, "ans": ans, "ob": ob, "now": now, "spec": spec, "ci": ci, "cn": cn, "cs": cs, "once": oa, "tri": tf})
         if ci != cs:
             need_single.append(len(results) - 1)
-    # classify deviations from the specified behaviour by the single switch that explains them
+    # classify deviations from the specified behaviour by the smallest set of known switches that explains them
+    # (the as-found model with all of them on is `now`; so whenever the tie holds some subset matches)
     if need_single:
+        import itertools
+        subsets = [c for k in range(1, len(SWITCHES) + 1) for c in itertools.combinations(range(len(SWITCHES)), k)]
+        names = ["bits:0" + "".join("1" if i in c else "0" for i in range(len(SWITCHES))) for c in subsets]
         sub = [results[i]["proj"] for i in need_single]
-        singles = run_models(sub, ["only:" + s for s in SWITCHES])
-        for i, mo in zip(need_single, singles):
+        outs = run_models(sub, names)
+        for i, mo in zip(need_single, outs):
             r = results[i]
-            tags = [s for s in SWITCHES if canon_for_compare(r["proj"], observe_model(mo["only:" + s])) == r["ci"]]
-            if not tags and r["ci"] == r["cn"]:
-                # several switches interact: every switch that changes the model's answer on this project
-                tags = [s for s in SWITCHES if canon_for_compare(r["proj"], observe_model(mo["only:" + s])) != r["cs"]]
+            tags = []
+            for c, nm in zip(subsets, names):
+                if canon_for_compare(r["proj"], observe_model(mo[nm])) == r["ci"]:
+                    tags = [SWITCHES[j] for j in c]
+                    break
             r["tags"] = tags
     return results
 
